@@ -23,7 +23,7 @@ LFHT_ASSUMPTIONS = [
 
 def run_lfht(pid, tier, seed):
     t0 = time.time()
-    runs = {"quick": 25000, "thorough": 600000}[tier]
+    runs = {"quick": 15000, "thorough": 400000}[tier]
     runs = int(os.environ.get("VERIF_FUZZ_RUNS", runs))
     excl = []
     known = core.load_known()
